@@ -48,8 +48,8 @@ Definition custom_translations (st : ts_state) (t : str) : option (str * str) :=
 
 Definition tabs (n : nat) : str := repeat_str [ch_tab] n.
 
-(* typescript.rs:369 write_comments *)
-Definition ts_comments (indent : nat) (comments : list str) : str :=
+(* typescript.rs:369 write_comments, the part after `let comments = comments.iter().map(|c| c.replace(..))` *)
+Definition ts_comments_raw (indent : nat) (comments : list str) : str :=
   match comments with
   | [] => []
   | [c] => tabs indent ++ lit "/** " ++ c ++ lit " */" ++ nl
@@ -57,6 +57,11 @@ Definition ts_comments (indent : nat) (comments : list str) : str :=
          tabs indent ++ lit " * " ++ join (nl ++ tabs indent ++ lit " * ") comments ++ nl ++
          tabs indent ++ lit " */" ++ nl
   end.
+(* typescript.rs:378 c.replace(STAR SLASH, STAR BACKSLASH SLASH): a comment terminator inside the text would end the comment early *)
+Definition ts_escape_comment (c : str) : str := replace_sub (lit "*/") (lit "*\/") c.
+(* typescript.rs:369 write_comments *)
+Definition ts_comments (indent : nat) (comments : list str) : str :=
+  ts_comments_raw indent (map ts_escape_comment comments).
 
 Section TS.
 Variable uc : unicode.
